@@ -1574,12 +1574,10 @@ def select__for_each(self: XPathFunction, context: ta.ContextType = None) \
     if self.context is not None:
         context = self.context
 
-    func = self[1][1] if self[1].symbol == ':' else self[1]
-    if not isinstance(func, XPathFunction):
-        func = self.get_argument(context, index=1, cls=XPathFunction, required=True)
+    func = self.get_argument(context, index=1, cls=XPathFunction, required=True)
     assert isinstance(func, XPathFunction)
 
-    for item in self[0].select(context):
+    for item in self[0].select(copy(context)):
         result = func(item, context=context)
         if isinstance(result, list):
             yield from result
@@ -1591,15 +1589,13 @@ def select__for_each(self: XPathFunction, context: ta.ContextType = None) \
                  sequence_types=('item()*', 'function(item()) as xs:boolean', 'item()*')))
 def select__filter(self: XPathFunction, context: ta.ContextType = None)\
         -> Iterator[ta.ItemType]:
-    func = self[1][1] if self[1].symbol == ':' else self[1]
-    if not isinstance(func, XPathFunction):
-        func = self.get_argument(context, index=1, cls=XPathFunction, required=True)
+    func = self.get_argument(context, index=1, cls=XPathFunction, required=True)
     assert isinstance(func, XPathFunction)
 
     if func.nargs == 0:
         raise self.error('XPTY0004', f'invalid number of arguments {func.nargs}')
 
-    for item in self[0].select(context):
+    for item in self[0].select(copy(context)):
         cond = func(item, context=context)
         if isinstance(cond, list) and len(cond) == 1:
             cond = cond[0]  # a sequence of one item is that item
@@ -1614,9 +1610,7 @@ def select__filter(self: XPathFunction, context: ta.ContextType = None)\
                                  'function(item()*, item()) as item()*', 'item()*')))
 def select__fold_left(self: XPathFunction, context: ta.ContextType = None) \
         -> Iterator[ta.ItemType]:
-    func = self[2][1] if self[2].symbol == ':' else self[2]
-    if not isinstance(func, XPathFunction):
-        func = self.get_argument(context, index=2, cls=XPathFunction, required=True)
+    func = self.get_argument(context, index=2, cls=XPathFunction, required=True)
     assert isinstance(func, XPathFunction)
 
     if func.arity != 2:
@@ -1625,7 +1619,7 @@ def select__fold_left(self: XPathFunction, context: ta.ContextType = None) \
     zero = self[1].evaluate(copy(context))  # $zero is item()*: any sequence, also empty
 
     result = zero
-    for item in self[0].select(context):
+    for item in self[0].select(copy(context)):
         result = func(result, item, context=context)
 
     if isinstance(result, list):
@@ -1639,9 +1633,7 @@ def select__fold_left(self: XPathFunction, context: ta.ContextType = None) \
                                  'function(item()*, item()) as item()*', 'item()*')))
 def select__fold_right(self: XPathFunction, context: ta.ContextType = None) \
         -> Iterator[ta.ItemType]:
-    func = self[2][1] if self[2].symbol == ':' else self[2]
-    if not isinstance(func, XPathFunction):
-        func = self.get_argument(context, index=2, cls=XPathFunction, required=True)
+    func = self.get_argument(context, index=2, cls=XPathFunction, required=True)
     assert isinstance(func, XPathFunction)
 
     if func.arity != 2:
@@ -1650,7 +1642,7 @@ def select__fold_right(self: XPathFunction, context: ta.ContextType = None) \
     zero = self[1].evaluate(copy(context))  # $zero is item()*: any sequence, also empty
 
     result = zero
-    sequence = [x for x in self[0].select(context)]
+    sequence = [x for x in self[0].select(copy(context))]
 
     for item in reversed(sequence):
         result = func(item, result, context=context)
@@ -1666,16 +1658,14 @@ def select__fold_right(self: XPathFunction, context: ta.ContextType = None) \
                                  'function(item(), item()) as item()*', 'item()*')))
 def select__for_each_pair(self: XPathFunction, context: ta.ContextType = None) \
         -> Iterator[ta.ItemType]:
-    func = self[2][1] if self[2].symbol == ':' else self[2]
-    if not isinstance(func, XPathFunction):
-        func = self.get_argument(context, index=2, cls=XPathFunction, required=True)
+    func = self.get_argument(context, index=2, cls=XPathFunction, required=True)
 
     if not isinstance(func, XPathFunction):
         raise self.error('XPTY0004', "invalid type for 3rd argument {!r}".format(func))
     elif func.arity != 2:
         raise self.error('XPTY0004', "function arity of 3rd argument must be 2")
 
-    for item1, item2 in zip(self[0].select(context), self[1].select(context)):
+    for item1, item2 in zip(self[0].select(copy(context)), self[1].select(copy(context))):
         result = func(item1, item2, context=context)
         if isinstance(result, list):
             yield from result
